@@ -213,23 +213,23 @@ void op_lowmc(const Case& c, TaskCtx& t, Outcome& o) {
   if (rc != 0)
     FAIL_STOP("C10.sk_to_pk_failed", std::string(p.name) + ": sk_to_pk returned " + std::to_string(rc));
   if (C != k.C)
-    CHECK_FAIL("C10.ciphertext_differs_from_specification",
+    CHECK_FAIL(owned("C10.ciphertext_differs_from_specification", {"C16"}),
                         std::string("LowMC ") + std::to_string(p.n) + "/" + std::to_string(p.r) + " via " + p.name + " on " + family_tag(c) + " surf" + std::to_string(surf) + " key pattern " +
                             c.s("kpat", "rand") + (c.has("kbit") ? " bit " + c.s("kbit") : "") + ": got " + model::hex(C) + " expected " + model::hex(k.C));
   if (pt != k.pt || (surf == 0 && pkst[0] != param))
-    CHECK_FAIL("C10.public_key_layout", std::string(p.name) + ": derived public key does not carry the plaintext / parameter byte");
+    CHECK_FAIL(owned("C10.public_key_layout", {"C16"}), std::string(p.name) + ": derived public key does not carry the plaintext / parameter byte");
   // validation recomputes the same encryption: accepts the true pair, rejects a pair with one ciphertext bit off
   bytes sk_ok = surf == 1 ? param_sk_struct(k) : generic_sk_struct(k), pk_ok = surf == 1 ? param_pk_struct(k) : generic_pk_struct(k);
   int v = libcall(t, [&] { return surf == 1 ? param_api(param).validate_keypair(sk_ok.data(), pk_ok.data()) : picnic_validate_keypair(sk_ok.data(), pk_ok.data()); });
   if (v != 0)
-    CHECK_FAIL("C10.validate_rejects_true_pair", std::string(p.name) + " " + family_tag(c) + ": validate_keypair rejects (sk, LowMC_sk(pt))");
+    CHECK_FAIL(owned("C10.validate_rejects_true_pair", {"C16"}), std::string(p.name) + " " + family_tag(c) + ": validate_keypair rejects (sk, LowMC_sk(pt))");
   model::Key bad = k;
   size_t fb = (size_t)(c.u("kseed", 1) % p.n);
   bad.C[fb >> 3] ^= (uint8_t)(0x80 >> (fb & 7));
   bytes sk_b = surf == 1 ? param_sk_struct(bad) : generic_sk_struct(bad), pk_b = surf == 1 ? param_pk_struct(bad) : generic_pk_struct(bad);
   v = libcall(t, [&] { return surf == 1 ? param_api(param).validate_keypair(sk_b.data(), pk_b.data()) : picnic_validate_keypair(sk_b.data(), pk_b.data()); });
   if (v == 0)
-    CHECK_FAIL("C10.validate_accepts_wrong_ciphertext", std::string(p.name) + " " + family_tag(c) + ": validate_keypair accepts a pair whose ciphertext bit " + std::to_string(fb) + " is flipped");
+    CHECK_FAIL(owned("C10.validate_accepts_wrong_ciphertext", {"C16"}), std::string(p.name) + " " + family_tag(c) + ": validate_keypair accepts a pair whose ciphertext bit " + std::to_string(fb) + " is flipped");
 }
 
 // ------------------------------------------------------------------------------------------------ key store: import (C11, C05)
@@ -302,13 +302,13 @@ void op_import(const Case& c, TaskCtx& t, Outcome& o) {
     return;
   std::string what = std::string(sk ? "read_private_key" : "read_public_key") + " surf" + std::to_string(surf) + " parameter byte " + std::to_string(pb) + " length " + std::to_string(n);
   if (expect && rc != 0)
-    CHECK_FAIL("C11.import_rejected_valid_key", what + ": rejected a well-formed key");
+    CHECK_FAIL(owned("C11.import_rejected_valid_key", {"C16"}), what + ": rejected a well-formed key");
   if (!expect && rc == 0)
-    CHECK_FAIL("C11.import_accepted_invalid_key", what + ": accepted (" + (!enabled ? "unknown/disabled parameter byte" : n < size ? "buffer shorter than the key" : !padzero ? "non-zero padding bits" : "foreign parameter byte") + ")");
+    CHECK_FAIL(owned("C11.import_accepted_invalid_key", {"C16"}), what + ": accepted (" + (!enabled ? "unknown/disabled parameter byte" : n < size ? "buffer shorter than the key" : !padzero ? "non-zero padding bits" : "foreign parameter byte") + ")");
   if (rc == 0) {
     size_t o0 = surf == 1 ? 1 : 0;
     if (memcmp(st.data(), ser.data() + o0, size - o0) != 0)
-      CHECK_FAIL("C11.imported_key_differs", what + ": imported key bytes differ from the encoded key");
+      CHECK_FAIL(owned("C11.imported_key_differs", {"C16"}), what + ": imported key bytes differ from the encoded key");
     // export reproduces the bytes
     bytes out(size + 8, 0x42);
     int w = cleancall([&] {
@@ -317,7 +317,7 @@ void op_import(const Case& c, TaskCtx& t, Outcome& o) {
       return sk ? picnic_write_private_key(st.data(), out.data(), out.size()) : picnic_write_public_key(st.data(), out.data(), out.size());
     });
     if (w != (int)size || memcmp(out.data(), ser.data(), size) != 0)
-      CHECK_FAIL("C11.roundtrip_not_identity", what + ": export after import returned " + std::to_string(w) + " / different bytes");
+      CHECK_FAIL(owned("C11.roundtrip_not_identity", {"C16"}), what + ": export after import returned " + std::to_string(w) + " / different bytes");
     if (surf == 0) {
       int gp = cleancall([&] { return sk ? picnic_get_private_key_param(st.data()) : picnic_get_public_key_param(st.data()); });
       if (gp != pb)
@@ -368,7 +368,7 @@ void op_export(const Case& c, TaskCtx& t, Outcome& o) {
     if (rc != (int)size)
       CHECK_FAIL("C06.export_failed_with_sufficient_buffer", what + ": returned " + std::to_string(rc) + ", expected " + std::to_string(size));
     if (memcmp(out.p, ser.data(), size) != 0)
-      CHECK_FAIL("C11.exported_form", what + ": exported bytes are not parameter byte || key fields");
+      CHECK_FAIL(owned("C11.exported_form", {"C16"}), what + ": exported bytes are not parameter byte || key fields");
     for (size_t i = size; i < cap; i++)
       if (out.p[i] != fill)
         CHECK_FAIL("C06.export_wrote_beyond_len", what + ": byte " + std::to_string(i) + " beyond the key was modified");
